@@ -69,7 +69,7 @@ def z3_of_type(ty, name):
     h = ty_head(t)
     if h in ('NonZero',):
         m = re.search(r'NonZero<(\w+)>', t); return z3.BitVec(name, INT_W.get(m.group(1), 64) if m else 64)
-    if h == 'DateTime': return z3.BitVec(name, 64)
+    if h == 'DateTime': return z3.Int(name)
     return None
 
 # --------------------------------------------------------------------------- state
